@@ -22,6 +22,7 @@ import tempfile
 
 from ..refmodels import c06_dimacs as ref
 
+PYTHON_O_STRIDE = {"quick": 4, "thorough": 2}      # every n-th case is repeated in an interpreter started with -O
 RULE = ("writer: hand-built CNFs (0..40 variables, empty formula, empty clauses, unused variables, repeated/"
         "opposite literals, classes CNF/CNFio, built through the constructor / add_clause / add_clauses_from) with "
         "header keys/values and variable names from a hostile alphabet (tab, NUL, ESC, non-ASCII, BOM, VT/FF/NEL/LS, "
